@@ -168,9 +168,17 @@ def wrap(name, macro):
 def mutated(ctx, name, macro, orig, args, prev_list):
     """premise dropped / permuted / duplicated: if eval still accepts, its expansion must still check"""
     rng = Mon.rng
-    kind = rng.choice(['drop', 'swap', 'dup'])
+    kind = rng.choice(['drop', 'swap', 'dup', 'addhyp', 'addhyp'])
     pl = list(prev_list)
-    if kind == 'drop':
+    if kind == 'addhyp':
+        # one premise gets a hypothesis of its own (a fact proved under an extra assumption): what the macro
+        # evaluates to must carry it, because its expansion will
+        from kernel.thm import Thm
+        from kernel.term import Var
+        from kernel.type import BoolType
+        j = rng.randrange(len(pl))
+        pl[j] = Thm(pl[j].prop, *(tuple(pl[j].hyps) + (Var('vf_extra_hyp', BoolType),)))
+    elif kind == 'drop':
         pl.pop(rng.randrange(len(pl)))
     elif kind == 'swap' and len(pl) >= 2:
         i, j = rng.sample(range(len(pl)), 2)
